@@ -40,7 +40,8 @@ func (cache *HevcCache) CachePack(pack Pack) bool {
 	}
 
 	// 判断是否是参数和关键帧包
-	vps, sps, pps, islice := cache.getPalyloadType(rtppack.Payload())
+	payload := rtppack.Payload()
+	vps, sps, pps, islice := cache.getPalyloadType(payload)
 
 	cache.l.Lock()
 	defer cache.l.Unlock()
@@ -64,7 +65,8 @@ func (cache *HevcCache) CachePack(pack Pack) bool {
 	// 不能重新开始 GOP，也不是关键帧的起点
 	if islice && cache.keyRun && cache.keyTs == rtppack.Timestamp {
 		islice = false
-	} else {
+	} else if !(cache.keyRun && cache.keyTs == rtppack.Timestamp && cache.keyFragment(payload)) {
+		// 关键帧片的后续分片（FU）不结束该关键帧
 		cache.keyRun, cache.keyTs = islice, rtppack.Timestamp
 	}
 
@@ -168,6 +170,18 @@ func (cache *HevcCache) getPalyloadType(payload []byte) (vps, sps, pps, islice b
 		cache.nalType(naluType, &vps, &sps, &pps, &islice)
 		return
 	}
+}
+
+// keyFragment 判断是否是关键帧片的后续分片（FU 的非起始分片）
+func (cache *HevcCache) keyFragment(payload []byte) bool {
+	if len(payload) < 3 {
+		return false
+	}
+	if (payload[0]>>1)&0x3f != hevc.NalFuInRtp {
+		return false
+	}
+	naluType := payload[2] & 0x3f
+	return (payload[2]>>7)&1 == 0 && naluType >= hevc.NalBlaWLp && naluType <= hevc.NalCraNut
 }
 
 func (cache *HevcCache) nalType(nalType byte, vps, sps, pps, islice *bool) {
